@@ -1,10 +1,86 @@
 import RgVerif.Model.Sx
-namespace RgVerif.Driver.C06
-open RgVerif
+import RgVerif.Model.Walk
+import RgVerif.Spec.Reach
+/-
+Driver of C06.
 
-/-- Request handler of property C06: `cmd` is the first token of the line, `args` the rest. -/
+  c06.walk <which> (cfg (depth d|-) (size s|-) (follow 0|1) (samefs 0|1) (filter n…|-)) (forest N…) (roots N…)
+
+`which` ∈ serial | parallel | reach | guard.  Nodes: `(f name size)`, `(d name ino dev (ign n…) kids…)`,
+`(l name len -)`, `(l name len (f size))`, `(l name len (d ino))`.  `forest` is the whole file system the
+roots live in (links may point anywhere in it); `roots` the paths given to the walker.
+Ignore rule of the harness: an entry is ignored iff its name is listed in the ignore file of an entered
+ancestor; filter: rejects the listed names.  Reply: the reported items sorted, `e:1/2/3` entries,
+`L:…` loop errors, `B:…` broken-link errors (order is not part of the property); duplicates are kept.
+-/
+namespace RgVerif.Driver.C06
+open RgVerif RgVerif.Walk
+
+def parseTarget : Sx → Option Target
+  | .atom "-" => some .missing
+  | .list [.atom "f", s] => do pure (.file (← s.nat?))
+  | .list [.atom "d", i] => do pure (.dir (← i.nat?))
+  | _ => none
+
+partial def parseNode : Sx → Option Node
+  | .list [.atom "f", n, s] => do pure (.file (← n.nat?) (← s.nat?))
+  | .list [.atom "l", n, len, t] => do pure (.link (← n.nat?) (← len.nat?) (← parseTarget t))
+  | .list (.atom "d" :: n :: ino :: dev :: .list (.atom "ign" :: ign) :: kids) => do
+    let kids ← kids.mapM parseNode
+    pure (.dir (← n.nat?) (← ino.nat?) (← dev.nat?) (← ign.mapM Sx.nat?) kids)
+  | _ => none
+
+def optNat? : Sx → Option (Option Nat)
+  | .atom "-" => some none
+  | x => (x.nat?).map some
+
+def parseCfg (xs : List Sx) : Option Cfg := do
+  let depth ← (Sx.field1 xs "depth") >>= optNat?
+  let size ← (Sx.field1 xs "size") >>= optNat?
+  let follow ← (Sx.field1 xs "follow") >>= Sx.bool?
+  let samefs ← (Sx.field1 xs "samefs") >>= Sx.bool?
+  let filt ← Sx.field xs "filter"
+  let filter : Option (Path → Bool → Bool) ←
+    match filt with
+    | [.atom "-"] => some none
+    | ns => do
+      let ns ← ns.mapM Sx.nat?
+      pure (some fun p _ => !(ns.contains (p.getLast?.getD 0)))
+  pure { maxDepth := depth, maxFilesize := size, followLinks := follow, sameFs := samefs,
+         ignored := fun igns name _ => igns.any (fun l => l.contains name),
+         filter := filter }
+
+def pathStr (p : Path) : String := "/".intercalate (p.map toString)
+
+def outStr : Out → String
+  | .entry p => "e:" ++ pathStr p
+  | .loop p => "L:" ++ pathStr p
+  | .broken p => "B:" ++ pathStr p
+
+def insertSorted (x : String) : List String → List String
+  | [] => [x]
+  | y :: ys => if x ≤ y then x :: y :: ys else y :: insertSorted x ys
+
+def sortStrs (xs : List String) : List String := xs.foldl (fun acc x => insertSorted x acc) []
+
+def showOuts (os : List Out) : String :=
+  let ss := sortStrs (os.map outStr)
+  if ss.isEmpty then "-" else " ".intercalate ss
+
 def handle (cmd : String) (args : List Sx) : String :=
   match cmd, args with
+  | "c06.walk", [.atom which, .list (.atom "cfg" :: cfg), .list (.atom "forest" :: fs),
+                 .list (.atom "roots" :: rs)] =>
+    match parseCfg cfg, fs.mapM parseNode, rs.mapM parseNode with
+    | some cfg, some forest, some roots =>
+      let fuel := (dirInosL forest).length + 1
+      match which with
+      | "serial" => showOuts (serial cfg forest fuel roots)
+      | "parallel" => showOuts (parallel cfg forest fuel roots)
+      | "reach" => showOuts (reach cfg forest fuel roots)
+      | "guard" => if hazardFree cfg forest fuel roots then "1" else "0"
+      | _ => "bad-op"
+    | _, _, _ => "bad-op"
   | _, _ => "bad-op"
 
 end RgVerif.Driver.C06
